@@ -219,6 +219,14 @@ func c18GenTree(r *core.Rand) *tree.Tree {
 		}
 		put(inDir(d, "chend"), tree.File, "")
 	}
+	if r.P(1, 25) {
+		// a name that is also a glob pattern, reached through a link, next to
+		// the name the pattern would match (known finding K9: the resolved
+		// target is used as an include pattern as it is)
+		put("q[1]", tree.File, "")
+		put("q1", tree.File, "")
+		put("lq", tree.Symlink, "q[1]")
+	}
 	if r.P(1, 6) { // a link to a directory with two files: the shared-prefix shape
 		put("t", tree.Dir, "")
 		put("t/x", tree.File, "")
@@ -260,6 +268,9 @@ func c18GenRequests(r *core.Rand, t *tree.Tree) []string {
 	idx := refs.Index(t)
 	// a long chain is requested near its head, so that the walk crosses
 	// 37..43 links: the limit itself is part of what is explored
+	if e := t.Get("lq"); e != nil && e.Target == "q[1]" && r.P(3, 4) {
+		out = append(out, "lq")
+	}
 	for _, e := range t.Entries {
 		if e.Type == tree.Symlink && tree.Base(e.Path) == "ch37" && r.P(3, 4) {
 			out = append(out, joinRel(tree.Parent(e.Path), fmt.Sprintf("ch%d", r.Intn(4))))
@@ -723,7 +734,7 @@ func init() {
 			"fsutil.FollowLinks runs on an FS wrapper that counts Walk calls (and fails the call past the step bound 64*(requests+1)*(entries+1)*40); its result is checked for order, prefix-freeness, root collapse and coverage of every symlink traversed / final location reached by the independent chroot-style resolver (refs.Resolve, Linux semantics, 40-link limit) for plain requests and for every match of a last-component wildcard; then the tree is transferred with FollowPaths=requests by the real Send/Receive into an empty directory and every plain request that resolves to an entry in the source must resolve in the copy to the same path, type and bytes. " +
 			"non-trivial = the model traverses at least one symlink for some request; distinct by (tree, request list, source kind) fingerprint",
 		Assumptions: []string{
-			"entry names and link targets contain no wildcard characters (* ? [ \\); requests are lexically clean (no '.'/'..' components except the request '.')",
+			"entry names and link targets contain no wildcard characters (* ? [ \\), except the shape q[1] / q1 / lq -> q[1] that exhibits known finding K9; requests are lexically clean (no '.'/'..' components except the request '.')",
 			"'covered' = an element equals the location, is an ancestor of it, or is a wildcard pattern whose components match its leading components (the list is used as include patterns)",
 			"a request whose walk ends at a missing component, at a non-directory in the middle, or with ELOOP demands only the symlinks traversed (first 40)",
 			"wildcards in middle components: only termination, order and prefix-freeness are demanded",
@@ -999,6 +1010,8 @@ func c18Run(c *core.Ctx) *core.Result {
 			switch {
 			case m.ReqLexDotDot[q]:
 				sig = "followlinks-lexical-dotdot"
+			case strings.ContainsAny(sr.Final, "*?["):
+				sig = "followpaths-target-read-as-pattern"
 			case m.ReqCutByLinkGuard[q]:
 				sig = "D9-followlinks-guard"
 			}
